@@ -240,13 +240,14 @@ func writeAnswer(w io.Writer, a Answer, head bool) (closeAfter bool) {
 // ---------- environment ----------
 
 type Options struct {
-	Backend string // "memory" | "file"
-	Shards  int
-	TLS     bool   // origin speaks TLS and clients use CONNECT
-	Dir     string // scratch directory (cache dir, CA files)
-	MaxSize int64  // 0 = default
-	CAChain bool   // ca.crt is a chain file (signing CA followed by the root that issued it); clients trust the signing CA
-	Tune    func(cfg *config.Config)
+	Backend       string // "memory" | "file"
+	Shards        int
+	TLS           bool   // origin speaks TLS and clients use CONNECT
+	Dir           string // scratch directory (cache dir, CA files)
+	MaxSize       int64  // 0 = default
+	PlainUpstream bool   // with TLS: clients still use CONNECT + TLS towards the proxy, but the origin speaks plain HTTP
+	CAChain       bool   // ca.crt is a chain file (signing CA followed by the root that issued it); clients trust the signing CA
+	Tune          func(cfg *config.Config)
 }
 
 type Env struct {
@@ -360,9 +361,10 @@ func Start(o Options) (*Env, error) {
 	if err != nil {
 		return nil, err
 	}
-	org := &Origin{closed: make(chan struct{}), TLS: o.TLS}
+	originTLS := o.TLS && !o.PlainUpstream
+	org := &Origin{closed: make(chan struct{}), TLS: originTLS}
 	pool := x509.NewCertPool()
-	if o.TLS {
+	if originTLS {
 		cert, leaf, err := originCert()
 		if err != nil {
 			return nil, err
@@ -377,7 +379,7 @@ func Start(o Options) (*Env, error) {
 	env.Origin = org
 
 	cfg := config.NewDefault()
-	cfg.Proxy.UpstreamDefaultHttps.Overwrite(o.TLS)
+	cfg.Proxy.UpstreamDefaultHttps.Overwrite(originTLS)
 	cfg.Cache.File.Dir.Overwrite(filepath.Join(o.Dir, "cache"))
 	cfg.Proxy.RetryOnRange416.Overwrite(false)
 	cfg.Proxy.CachePolicy.IgnoreCacheControl.Overwrite(false)
